@@ -4,7 +4,7 @@
    compileImport / compileModule / compileFuncDef / lookup* / listModuleDefs (no translator: the tie to the
    code is the correspondence stream, which also validates the model of path/filepath against Go). *)
 From Coq Require Import List NArith Bool Sorting.Permutation Sorting.Sorted.
-From Verif Require Import c18.PathModel c18.PathProofs c18.ModModel c18.ModSpec c18.ModProofs
+From Verif Require Import c18.PathModel c18.PathProofs c18.ModModel c18.ModSpec c18.ModProofs c18.ModProofsV
   c18.MetaModel c18.MetaProofs.
 Import ListNotations.
 Open Scope N_scope.
@@ -94,6 +94,13 @@ Theorem C18_static_visibility_closed : forall m c, closed (spec_root m c) -> imp
 Proof. exact static_visibility_closed. Qed.
 Print Assumptions C18_static_visibility_closed.
 
+(* 1'. the same INCLUDING data variables ($d, $d::d; closedv allows them), for every tree in which no
+      included text brings a data import (wfv: there the code and the lexical reading differ, finding 2); *)
+Theorem C18_static_visibility_closedv : forall m c, wfv m -> closedv (spec_root m c) ->
+  impl_root m c = spec_root m c.
+Proof. exact static_visibility_closedv. Qed.
+Print Assumptions C18_static_visibility_closedv.
+
 (* 2. at the level of the main program, visibility agrees in BOTH directions and the bound definition is
       the specified one: an invisible name (a transitive module's name, a module's name without its alias,
       a::c::h, …) is unbound in the code too, a visible one is bound to the same definition; *)
@@ -109,9 +116,9 @@ Theorem C18_nothing_else : forall fs q n ar d, lookup_f fs q n ar = Some d ->
 Proof. exact lookup_prefix_bound. Qed.
 Print Assumptions C18_nothing_else.
 (* Missing for the full statement: (a) call sites INSIDE imported modules whose specified binding is
-   "unbound" — the code may bind them to the importer's names (finding); (b) data variables ($d, $d::d):
-   the code drops an included module's data imports at the end of the include and lets an imported module
-   see the importer's data variables; both are exercised by the correspondence only. *)
+   "unbound" — the code may bind them to the importer's names (finding); (b) data variables of INCLUDED
+   texts: the code drops an included module's data imports at the end of the include (finding 2); such trees
+   are exercised by the correspondence only. *)
 
 (* ---- modulemeta: defs = the module's own definitions not starting with '_', sorted by name then arity *)
 Theorem C18_modulemeta_defs : forall defs,
